@@ -405,5 +405,74 @@ mut("c10-bad-fill-poisons-parent", "C10", "a colour that cannot be parsed is wri
                     current_values[SVG_ATTR_FILL] = "none"
                 values.update(attributes)''')
 
+# ---------------- C20
+mut("c20-viewport-inverse-wrong-side", "C20", "the inverse viewport transform is multiplied on the wrong side",
+'''        if viewport_transform:
+            t = t * viewport_transform''',
+'''        if viewport_transform:
+            t = viewport_transform * t''')
+mut("c20-rect-ry-from-rx", "C20", "the writer states a rect's ry from rx",
+'''        restate(xml_tree, SVG_ATTR_RADIUS_Y, node.ry)
+        restate(xml_tree, SVG_ATTR_WIDTH, node.width)''',
+'''        restate(xml_tree, SVG_ATTR_RADIUS_Y, node.rx)
+        restate(xml_tree, SVG_ATTR_WIDTH, node.width)''')
+mut("c20-stroke-opacity-as-fill-opacity", "C20", "the stroke's alpha is written as fill-opacity",
+'''                xml_tree.set(SVG_ATTR_STROKE_OPACITY, str(stroke_opacity))''',
+'''                xml_tree.set(SVG_ATTR_FILL_OPACITY, str(stroke_opacity))''')
+mut("c20-write-swallows-oserror", "C20", "write() swallows I/O errors of the final write (a truncated file is acknowledged)",
+'''        pass
+    tree.write(f, **kwargs)''',
+'''        pass
+    try:
+        tree.write(f, **kwargs)
+    except OSError:
+        pass''')
+mut("c20-matrix-five-decimals", "C20", "matrices are written with five decimals",
+'''                "matrix(%f, %f, %f, %f, %f, %f)" % (t.a, t.b, t.c, t.d, t.e, t.f),''',
+'''                "matrix(%.4f, %.4f, %.4f, %.4f, %.4f, %.4f)" % (t.a, t.b, t.c, t.d, t.e, t.f),''')
+mut("c20-svgz-not-closed", "C20", "the gzip file opened for an svgz name is never closed (the pinned tree's defect)",
+'''            with gzip.open(f, "wb") as gz:
+                tree.write(gz, **kwargs)
+            return''',
+'''            gz = gzip.open(f, "wb")
+            tree.write(gz, **kwargs)
+            return''')
+mut("c20-use-transform-written", "C20", "a use keeps its transform on the group it is written as (the pinned tree's defect)",
+'''    if hasattr(node, "transform") and not isinstance(node, (Group, Use)):''',
+'''    if hasattr(node, "transform") and not isinstance(node, Group):''')
+mut("c20-stale-cy-kept", "C20", "a circle's cy at zero leaves the source's cy text in place (the pinned tree's defect)",
+'''        xml_tree = subxml(xml_tree, SVG_TAG_CIRCLE)
+        restate(xml_tree, SVG_ATTR_CENTER_X, node.cx)
+        restate(xml_tree, SVG_ATTR_CENTER_Y, node.cy)''',
+'''        xml_tree = subxml(xml_tree, SVG_TAG_CIRCLE)
+        restate(xml_tree, SVG_ATTR_CENTER_X, node.cx)
+        if node.cy:
+            xml_tree.set(SVG_ATTR_CENTER_Y, str(node.cy))''')
+mut("c20-point-str-exponent", "C20", "Point.__str__ strips the zeros of an exponent (the pinned tree's defect)",
+'''        if "." in x_str and "E" not in x_str:''',
+'''        if "." in x_str:''', runs=40000)
+mut("c20-fill-none-omitted", "C20", "a fill of none is not written (the shape comes back black)",
+'''            fill = (
+                str(abs(fill))
+                if fill is not None and fill.value is not None
+                else SVG_VALUE_NONE
+            )
+            xml_tree.set(SVG_ATTR_FILL, str(fill))''',
+'''            fill = (
+                str(abs(fill))
+                if fill is not None and fill.value is not None
+                else SVG_VALUE_NONE
+            )
+            if fill != SVG_VALUE_NONE:
+                xml_tree.set(SVG_ATTR_FILL, str(fill))''')
+mut("c20-embedded-viewport-not-undone", "C20", "content of an embedded svg is written without undoing the enclosing viewport transform (the pinned tree's defect)",
+'''            vt = viewport_transform * vt if vt else viewport_transform''',
+'''            vt = vt if vt else None''')
+mut("c20-xy-inherited", "C20", "children inherit an enclosing element's y (the pinned tree's defect)",
+'''                for attr in (SVG_ATTR_X, SVG_ATTR_Y, SVG_ATTR_WIDTH, SVG_ATTR_HEIGHT):
+                    if attr in values:''',
+'''                for attr in (SVG_ATTR_X, SVG_ATTR_WIDTH, SVG_ATTR_HEIGHT):
+                    if attr in values:''', runs=20000)
+
 json.dump(M, open(os.path.join(HERE, "mutants", "mutants.json"), "w"), indent=1)
 print("wrote", len(M), "mutants")
